@@ -92,17 +92,19 @@ def models(thorough):
     # quick: the kill / sleep models leave out the shapes with four nodes in one stage (they are in the memo model, the real
     # runs and the thorough tier)
     fewer = shapes if thorough else [x for x in shapes if x not in ("agg", "aggfail", "restart")]
-    small = ["chain2", "stages2", "obs2", "xfail"] if thorough else ["chain2", "obs", "xfail"]
-    return [
+    small = ["chain2", "stages2", "obs2", "xfail"] if thorough else ["chain2", "obs"]
+    return [m for m in [
         ("kill", fewer, dict(kill=True, starts=(0, 1, 2), all_orders=False), ["ExternalKill"]),
-        ("sleep", fewer, dict(max_sleeps=1, starts=(0, 1, 2), all_orders=thorough), ["SleepCall", "WakeUpO"]),
-        ("memo", shapes, dict(memo=True, starts=(0, 1, 2), all_orders=thorough), []),
-        ("all", small, dict(kill=True, starts=(0, 1), max_sleeps=1, memo=True, all_orders=thorough),
+        ("sleep", fewer, dict(max_sleeps=2 if thorough else 1, starts=(0, 1, 2), all_orders=False), ["SleepCall", "WakeUpO"]),
+        # (quick: the memoization model is checked in the run that prints its terminal states, see 1b)
+        ("memo", shapes, dict(memo=True, starts=(0, 1, 2), all_orders=True), []) if thorough else None,
+        ("all", small, dict(kill=True, starts=(0, 1), max_sleeps=2 if thorough else 1, memo=True, all_orders=False),
          ["ExternalKill", "SleepCall", "WakeUpO"]),
         # DoWhile at run time (FixLoopAfterStop = TRUE: the design a repair restores; the deviation has its own run below)
         ("dwkill", SS.G02_DW if thorough else ["dw2"], dict(kill=True, starts=(0, 1), all_orders=False), ["ExternalKill"]),
         ("dwsleep", SS.G02_DW if thorough else ["dw2"], dict(max_sleeps=1, starts=(0, 1), all_orders=False), ["SleepCall", "WakeUpO"]),
     ] + ([("dwall", ["dw2"], dict(kill=True, max_sleeps=1, all_orders=False), ["ExternalKill", "SleepCall", "WakeUpO"])] if thorough else [])
+            if m]
 
 
 RESTARTING = (3, 5, 6, 8)        # outcome sequences whose first execution is followed by a restart
@@ -218,7 +220,10 @@ def run(tier):
     chk.add_tlc(r)
     chk.cov["current_code_model_violates"].append("KillReachesAll (DoWhile iteration instantiated after the kill)")
     # ---- 1b. terminal states of the restart x memoization cases, all orderings: the documented rule
-    r = SC.emit_terminals("g02" + tier, shapes, fixobs=FIXOBS, memo=True, starts=(0, 1, 2), all_orders=False)
+    r = SC.emit_terminals("g02" + tier, shapes, fixobs=FIXOBS, memo=True, starts=(0, 1, 2), all_orders=False,
+                          invariants=INVS, props=PROPS)       # the memoization x restart model itself is checked here as well
+    if r.get("violated") or not r["ok"]:
+        raise MachineryError("Scheduler.tla (memoization x restart) fails on the model:\n%s" % r["out"][-3000:])
     chk.add_tlc(r)
     terms = collections.defaultdict(set)
     meta = {}
